@@ -161,6 +161,7 @@ pub fn spec(id: &str) -> Spec {
             p.w_partition = 8;
             p.w_storage_fault = 8;
             p.async_pm = 500;
+            p.storage_exercise_pm = 500;
             Spec { profile: p, quick_runs: quick, thorough_runs: thorough,
                 nontrivial: |s, _| g(s, "compactions") >= 2 && g(s, "leaders_elected") >= 2,
                 rule: ">= 2 compactions and >= 2 leaders (conflicting tails) in the run" }
